@@ -1,5 +1,7 @@
 pub mod vc_diff;
 pub mod vc_rules;
+pub mod vc_cram;
+pub mod vc_md;
 pub mod vc_config;
 pub mod vc_escape;
 pub mod vc_expect;
@@ -22,6 +24,8 @@ macro_rules! engines {
 engines! {
     vc_diff::VcDiff => ["C01", "C02", "C03"],
     vc_rules::VcRules => ["C04"],
+    vc_cram::VcCram => ["C07"],
+    vc_md::VcMd => ["C06"],
     vc_config::VcConfig => ["C16", "C17"],
     vc_escape::VcEscape => ["C11"],
     vc_expect::VcExpect => ["C08"],
